@@ -201,6 +201,8 @@ def render_project(tests: T.List[dict]) -> T.Dict[str, str]:
         lines.append(f"test({_q(t['name'])}, py, args: {args}" + ''.join(', ' + k for k in kw) + ')')
     lines.append("add_test_setup('su1', env: ['C12_SETUP=su1'])")
     lines.append("add_test_setup('su2', exclude_suites: ['sB'], timeout_multiplier: 2)")
+    # a default setup (environment only): a run without --setup is still "the" run whose log is testlog.json
+    lines.append("add_test_setup('sudef', is_default: true, env: ['C12_DEFAULT_SETUP=1'])")
     script = f'HANG_S = {HANG_S}\nTAP = {TAP_STREAMS!r}\n' + T_PY
     return {'meson.build': '\n'.join(lines) + '\n', 't.py': script}
 
@@ -582,6 +584,8 @@ def check_invocation(tests: T.List[dict], inv: dict, bld: str, work: str, ev: T.
         return None
     if len(logs) != 1:
         return fail('testlog/missing', f'expected one meson-logs/testlog*.json, found {logs}')
+    if not inv['setup'] and os.path.basename(logs[0]) != 'testlog.json':
+        return fail('testlog/name', f'a run without --setup wrote {os.path.basename(logs[0])}, not testlog.json')
     with open(logs[0], encoding='utf-8') as f:
         for line in f:
             if not line.strip():
@@ -874,7 +878,11 @@ def probes(seed: int) -> T.List[dict]:
     tbl.append(T_('t20', mode='tap', par='fail', xf='expected_fail', dur=d(0, 40)))
     out.append({'tests': tbl, 'invs': [{'j': 4, 'slice_ns': [1, 2, 3, 4, 5]},
                                        {'j': 3, 'suite': ['sA'], 'nosuite': [], 'slice_ns': [2, 3], 'list_only': True},
-                                       {'j': 3, 'nosuite': [PROJ + ':sB'], 'setup': 'su1', 'slice_ns': [4], 'list_only': True}]})
+                                       {'j': 3, 'nosuite': [PROJ + ':sB'], 'setup': 'su1', 'slice_ns': [4], 'list_only': True},
+                                       # name patterns that select every other test: each slice of the SELECTION is non-empty
+                                       {'j': 3, 'names': ['t?[02468]'], 'slice_ns': [2, 3], 'list_only': True},
+                                       {'j': 3, 'names': [PROJ + ':t*[13579]', 't00'], 'slice_ns': [2, 4], 'list_only': True},
+                                       {'j': 4, 'names': ['t0[02468]'], 'slice': [2, 2]}]})
     # exit status with exactly one kind of bad result each; skipped/expected-fail only => 0
     for k, tests in enumerate([[T_('t00'), T_('t01', xf='should_fail')],
                                [T_('t00'), T_('t01', par=99)],
